@@ -345,6 +345,105 @@ pub fn typing(rng: &mut Rng) -> (Vec<Finding>, u64) {
     (f, 12 + u64::from(late_at.is_some()))
 }
 
+const PROBE_NAMES: &[&str] = &["addr", "log", "mtu", "type", "limits"];
+
+/// One entry carries a structured (mapping) value `{lo: v, hi: 9}`. The statement of C17 speaks about which module an
+/// entry reaches, not about how a mapping under a key is read further, so this probe only demands what follows from
+/// the statement for every reading: every entry (the structured one included) reaches each module it addresses under
+/// its property name with its own value. Additional keys are not judged here (des also reads the inner keys of a
+/// mapping as further path components).
+pub fn mapping_probe(rng: &mut Rng) -> (Vec<Finding>, u64) {
+    let mut f: Vec<Finding> = Vec::new();
+    let depth = 1 + rng.usize_below(3);
+    let path: Vec<String> = (0..depth).map(|_| SEGS[rng.usize_below(5)].to_string()).collect();
+    let n = 1 + rng.usize_below(4);
+    let structured = rng.usize_below(n);
+    // (key, value, structured?)
+    let mut entries: Vec<(String, u64, bool)> = Vec::new();
+    let mut names: Vec<&str> = PROBE_NAMES.to_vec();
+    for e in 0..n {
+        let mut k: Vec<String> = if e == structured || rng.chance(3, 4) { path.clone() } else { (0..1 + rng.usize_below(3)).map(|_| SEGS[rng.usize_below(5)].to_string()).collect() };
+        for s in k.iter_mut() {
+            if rng.chance(1, 4) {
+                *s = ANY.to_string();
+            }
+        }
+        // every entry has its own one-segment property name, none of which is a module name: no key is a prefix of another
+        let name = names.remove(rng.usize_below(names.len()));
+        k.push(name.to_string());
+        entries.push((k.join("."), 1000 + e as u64, e == structured));
+    }
+    let mut yaml = String::new();
+    for (k, v, st) in &entries {
+        if *st {
+            yaml.push_str(&format!("\"{k}\": {{lo: {v}, hi: 9}}\n"));
+        } else {
+            yaml.push_str(&format!("\"{k}\": {v}\n"));
+        }
+    }
+    let flat: Vec<(String, u64)> = entries.iter().map(|(k, v, _)| (k.clone(), *v)).collect();
+    let path_s = path.join(".");
+    let want = expected(&flat, &path_s);
+    let is_structured = |v: u64| entries.iter().any(|(_, x, st)| *x == v && *st);
+    let read = |v: Option<serde_yml::Value>| -> Option<(u64, bool)> {
+        let v = v?;
+        if let Some(n) = v.as_u64() {
+            return Some((n, false));
+        }
+        let lo = v.get("lo")?.as_u64()?;
+        if v.get("hi")?.as_u64()? != 9 {
+            return None;
+        }
+        Some((lo, true))
+    };
+    let judge = |how: &str, got: &BTreeMap<String, Option<(u64, bool)>>, f: &mut Vec<Finding>| {
+        for (name, vals) in &want {
+            match got.get(name) {
+                None => f.push(("missing-key", format!("{how}: module '{path_s}' must receive property '{name}' but got only {:?}; configuration:\n{yaml}", got.keys().collect::<Vec<_>>()))),
+                Some(Some((v, st))) if vals.contains(v) && *st == is_structured(*v) => {}
+                Some(other) => f.push(("wrong-value", format!("{how}: module '{path_s}' property '{name}' reads {other:?} (value, structured), the matching entries have {vals:?}; configuration:\n{yaml}"))),
+            }
+        }
+    };
+    let r = vcommon::catch(|| {
+        let mut out: Vec<(String, BTreeMap<String, Option<(u64, bool)>>)> = Vec::new();
+        let value: serde_yml::Value = serde_yml::from_str(&yaml).expect("generated YAML parses");
+        let cfg = Cfg::new(value);
+        let segs: Vec<&str> = path.iter().map(String::as_str).collect();
+        let mut props = cfg.capture_for_into(&segs);
+        let keys = props.keys();
+        out.push(("Cfg::capture_for_into (structured value)".to_string(), keys.iter().map(|k| (k.clone(), read(props.get_raw(k).as_value()))).collect()));
+        for before in [true, false] {
+            let mut sim = Sim::new(());
+            if before {
+                sim.include_cfg(&yaml);
+            }
+            for d in 1..=path.len() {
+                sim.node(path[..d].join(".").as_str(), Quiet);
+            }
+            if !before {
+                sim.include_cfg(&yaml);
+            }
+            let m = sim.get(&path_s.as_str().into()).expect("module exists");
+            let keys = m.props_keys();
+            let got = keys.iter().map(|k| (k.clone(), read(m.prop_raw(k).as_value()))).collect();
+            drop(m);
+            drop(sim);
+            out.push((format!("include_cfg {} node creation (structured value)", if before { "before" } else { "after" }), got));
+        }
+        out
+    });
+    match r {
+        Err(p) => f.push(("panicked", format!("a configuration with a structured value panicked: {p}; configuration:\n{yaml}"))),
+        Ok(all) => {
+            for (how, got) in &all {
+                judge(how, got, &mut f);
+            }
+        }
+    }
+    (f, 3)
+}
+
 const SEGS: &[&str] = &["a", "al", "ali", "alice", "alicent", "b", "a1", "é", "alé", "日本", "x_y"];
 const NAMES: &[&str] = &["addr", "log", "mtu", "a", "al", "alice", "type", "x_y", "é"];
 
@@ -470,6 +569,13 @@ pub fn cmd(args: &Args) -> Report {
                 rep.violation(&format!("C17/{kind}"), &detail, json!({"driver": "desmon", "sub": "c17", "typing": true}));
             }
         }
+        if i % 20 == 10 {
+            let (f, n) = mapping_probe(&mut rng);
+            rep.count("structured_value_property_sets_checked", n);
+            for (kind, detail) in f.into_iter().take(1) {
+                rep.violation(&format!("C17/{kind}"), &detail, json!({"driver": "desmon", "sub": "c17", "structured": true}));
+            }
+        }
         if stop {
             break;
         }
@@ -492,6 +598,18 @@ pub fn replay(v: &Value) -> i32 {
             }
         }
         return i32::from(bad);
+    }
+    if v.get("structured").is_some() {
+        for s in 0..2000 {
+            let mut rng = Rng::new(s);
+            let (f, _) = mapping_probe(&mut rng);
+            if let Some((k, d)) = f.into_iter().next() {
+                println!("VIOLATION reproduced: C17/{k}: {d}");
+                return 1;
+            }
+        }
+        println!("no violation");
+        return 0;
     }
     let case: Case = serde_json::from_value(v.get("case").expect("case").clone()).expect("case");
     println!("configuration:\n{}", yaml_of(&case.entries));
